@@ -21,6 +21,7 @@ enum Op {
     Commit(i64),
     Compact,
     Close,
+    Offline, // nervusdb::vacuum on the path (an offline tool that rewrites the data file)
 }
 #[derive(Clone, Debug, PartialEq, Eq)]
 enum Res {
@@ -30,6 +31,8 @@ enum Res {
     Wrote(Op),
     Closed,
     NoHandle,
+    Offline,
+    OfflineRefused,
     Unexpected(String),
 }
 impl Op {
@@ -39,6 +42,7 @@ impl Op {
             Op::Commit(d) => format!("(HCommit {})", coq_z(*d as i128)),
             Op::Compact => "HCompact".into(),
             Op::Close => "HClose".into(),
+            Op::Offline => "HOffline".into(),
         }
     }
 }
@@ -53,6 +57,8 @@ impl Res {
             Res::Wrote(_) => "(RWrote WClose)".into(),
             Res::Closed => "RClosed".into(),
             Res::NoHandle => "RNoHandle".into(),
+            Res::Offline => "ROffline".into(),
+            Res::OfflineRefused => "ROfflineRefused".into(),
             // no model counterpart: rendered as a result the model never produces for this operation
             Res::Unexpected(_) => "RAlreadyOpen".into(),
         }
@@ -106,6 +112,12 @@ fn apply_local(slot: &mut Option<Db>, path: &Path, op: &Op) -> Res {
                 Err(p) => Res::Unexpected(format!("compact panicked: {}", p)),
             },
         },
+        Op::Offline => match vh::catch(std::panic::AssertUnwindSafe(|| nervusdb::vacuum(path).map_err(|e| e.to_string()))) {
+            Ok(Ok(_)) => Res::Offline,
+            Ok(Err(e)) if is_refusal(&e) => Res::OfflineRefused,
+            Ok(Err(e)) => Res::Unexpected(format!("vacuum: {}", e)),
+            Err(p) => Res::Unexpected(format!("vacuum panicked: {}", p)),
+        },
         Op::Close => match slot.take() {
             None => Res::NoHandle,
             Some(db) => match db.close() {
@@ -130,6 +142,7 @@ fn child_main(path: &Path) {
             Some("commit") => Op::Commit(it.next().unwrap().parse().unwrap()),
             Some("compact") => Op::Compact,
             Some("close") => Op::Close,
+            Some("offline") => Op::Offline,
             Some("quit") | None => break,
             Some(x) => panic!("child: unknown command {}", x),
         };
@@ -141,6 +154,8 @@ fn child_main(path: &Path) {
             Res::Wrote(_) => "wrote".to_string(),
             Res::Closed => "closed".to_string(),
             Res::NoHandle => "nohandle".to_string(),
+            Res::Offline => "offline".to_string(),
+            Res::OfflineRefused => "offlinerefused".to_string(),
             Res::Unexpected(m) => format!("unexpected {}", m.replace('\n', " ")),
         };
         writeln!(out, "{}", s).unwrap();
@@ -168,6 +183,7 @@ impl ChildHandle {
             Op::Commit(d) => format!("commit {}", d),
             Op::Compact => "compact".to_string(),
             Op::Close => "close".to_string(),
+            Op::Offline => "offline".to_string(),
         };
         if writeln!(self.stdin, "{}", cmd).is_err() || self.stdin.flush().is_err() {
             return Res::Unexpected("child process is gone".into());
@@ -183,6 +199,8 @@ impl ChildHandle {
             "wrote" => Res::Wrote(op.clone()),
             "closed" => Res::Closed,
             "nohandle" => Res::NoHandle,
+            "offline" => Res::Offline,
+            "offlinerefused" => Res::OfflineRefused,
             other => Res::Unexpected(other.to_string()),
         }
     }
@@ -207,6 +225,7 @@ struct Outcome {
 fn run_case(progs: &[Vec<Op>], sched: &[usize], with_child: bool) -> Outcome {
     let dir = tempfile::tempdir().unwrap();
     let path: PathBuf = dir.path().join("c10db");
+    drop(Db::open(&path).expect("create database").close());
     let n = progs.len();
     let child_id = if with_child { Some(n - 1) } else { None };
     let mut slots: Vec<Option<Db>> = (0..n).map(|_| None).collect();
@@ -228,6 +247,11 @@ fn run_case(progs: &[Vec<Op>], sched: &[usize], with_child: bool) -> Outcome {
             Res::Closed => is_open[t] = false,
             Res::Wrote(Op::Commit(d)) => {
                 expected.insert(*d);
+            }
+            Res::Offline => {
+                if is_open.iter().any(|b| *b) {
+                    max_open = max_open.max(2); // an offline writer next to an open handle counts as a second writer
+                }
             }
             _ => {}
         }
@@ -278,7 +302,7 @@ fn gen_prog(r: &mut Rng, next_d: &mut i64) -> Vec<Op> {
                 *next_d += 1;
                 Op::Commit(*next_d)
             }
-            6 => Op::Compact,
+            6 => if r.chance(1, 2) { Op::Compact } else { Op::Offline },
             7..=8 => Op::Close,
             _ => {
                 if open { Op::Close } else { Op::Open }
@@ -287,7 +311,7 @@ fn gen_prog(r: &mut Rng, next_d: &mut i64) -> Vec<Op> {
         // mostly well-formed: start with open, do not operate on a closed handle too often
         let op = if i == 0 && r.chance(4, 5) {
             Op::Open
-        } else if !open && op != Op::Open && r.chance(2, 3) {
+        } else if !open && op != Op::Open && op != Op::Offline && r.chance(2, 3) {
             Op::Open
         } else {
             op
@@ -327,6 +351,18 @@ fn main() {
         "corpus:handover".into(),
         vec![vec![Op::Open, Op::Commit(1), Op::Compact, Op::Close, Op::Open, Op::Commit(3)], vec![Op::Open, Op::Open, Op::Commit(2), Op::Compact, Op::Close]],
         vec![0, 0, 1, 0, 0, 1, 1, 1, 0, 1, 0],
+        true,
+    ));
+    cases.push((
+        "corpus:vacuum-under-open-handle".into(),
+        vec![vec![Op::Open, Op::Commit(1), Op::Close, Op::Commit(9)], vec![Op::Offline, Op::Offline]],
+        vec![0, 1, 0, 0, 1, 0],
+        false,
+    ));
+    cases.push((
+        "corpus:vacuum-in-child-under-open-handle".into(),
+        vec![vec![Op::Open, Op::Commit(1), Op::Offline, Op::Close], vec![Op::Offline, Op::Open, Op::Offline, Op::Close]],
+        vec![0, 1, 0, 0, 1, 0, 1, 1],
         true,
     ));
     // all interleavings of the two-writer witness (20), in-process
@@ -371,6 +407,8 @@ fn main() {
                 Res::Wrote(_) => "r:wrote",
                 Res::Closed => "r:closed",
                 Res::NoHandle => "r:no_handle",
+                Res::Offline => "r:offline_ran",
+                Res::OfflineRefused => "r:offline_refused",
                 Res::Unexpected(_) => "r:unexpected",
             };
             *hist.entry(k.into()).or_insert(0) += 1;
@@ -418,7 +456,7 @@ fn main() {
     rep.stats(json!({
         "evaluations": idx,
         "distinct_nontrivial": nontrivial.len(),
-        "rule": "2-3 handles on one path (half of the generated cases with the last handle in a child process), 2-8 operations each (open/commit/compact/close, mostly well-formed, some on closed handles, double opens), random interleavings incl. prefixes; corpus witness and all 20 interleavings of two open-commit-close writers; non-trivial = an open was refused or the database changed hands, distinct by (programs, schedule)",
+        "rule": "2-3 handles on one path (half of the generated cases with the last handle in a child process), 2-8 operations each (open/commit/compact/close/offline vacuum, mostly well-formed, some on closed handles, double opens), random interleavings incl. prefixes; corpus witness and all 20 interleavings of two open-commit-close writers; non-trivial = an open was refused or the database changed hands, distinct by (programs, schedule)",
         "histogram": hist,
         "direct_failures": fails,
         "case_files": cw.files.iter().map(|p| p.to_string_lossy().to_string()).collect::<Vec<_>>(),
